@@ -82,6 +82,13 @@ def cases(c, chunkings):
     add(f="sm2kdf", api="sm2", z=CL.hx(msg(64)), outlen=8192 + 1)
     add(f="hkdf_expand", api="generic", alg="sm3", prk=CL.hx(msg(32)), info=CL.hx(msg(3)), outlen=255 * 32)
     add(f="hkdf_expand", api="sm3", alg="sm3", prk=CL.hx(msg(32)), info=CL.hx(msg(3)), outlen=255 * 32)
+    # input lengths across the padding boundaries of the hash (the 4-byte counter follows the input: 52..63 mod 64 is where input + counter + padding needs a second
+    # block) x output lengths of one, two and several blocks
+    for zl in sorted(set(list(range(50, 70)) + list(range(114, 132)) + [0, 1, 32, 100, 180, 183, 188, 191, 192, 193])):
+        for ol in ((16, 33, 64, 100) if zl not in (1, 32, 64, 65, 100) else ()):
+            z = msg(zl)
+            if zl: add(f="sm2kdf", api="sm2", z=CL.hx(z), outlen=ol)
+            add(f="sm3kdf", api="sm3", z=CL.hx(z), outlen=ol, chunks="%d" % rng.randrange(0, zl + 1))
     for zl in (1, 32, 64, 65, 100):
         for ol in (1, 31, 32, 33, 64, 255):
             z = msg(zl)
